@@ -261,7 +261,7 @@ def c12(ck, tmp):
         cores = rng.choice([1, 1, 2])
         os.environ["GAFTOOLS_VERIF_BATCH_SIZE"] = str(rng.choice([2, 3, 1000]))
         try:
-            tool("realign", gaf=gaf, graph=gfa, fasta=fa, output=out, cores=cores)
+            tool("realign", allow_stdout=True, gaf=gaf, graph=gfa, fasta=fa, output=out, cores=cores)
             olines = open(out).read().splitlines()
         except BaseException as e:  # noqa
             ck.violation("realign crashed: %s: %s" % (type(e).__name__, e), {"gfa": text[:5000], "gaf": [l[:300] for l in lines]})
